@@ -32,6 +32,8 @@ def seg_len(seg):
         return Lin.const(len(seg[1]))
     if k == "rep":
         return None
+    if k == "fill":
+        return seg[2]
     if k == "byte":
         return Lin.const(1)
     if k == "zeros":
@@ -125,6 +127,24 @@ def c_bm_put_num(eng, st, fr, f, args, site):
     desc = eng.describe_operand(site["fr"], site["term"]["args"][1])
     if not append(eng, st, r, (("num", w, order, args[1], desc),), Lin.const(w)):
         return None
+    return [(st, UNIT)]
+
+
+@contract(r"^bytes::BytesMut::resize$|^(std|alloc)::vec::Vec::<T, A>::resize$")
+def c_resize(eng, st, fr, f, args, site):
+    """resize(new_len, value): when new_len >= len this appends (new_len - len) copies of value."""
+    r, n, v = args[0], args[1], args[2]
+    if not isinstance(r, Ref) or not isinstance(n, Int):
+        return None
+    c = force(eng, st, deref(eng, st, r))
+    if not isinstance(c, Cont):
+        return None
+    grow = n.lin.sub(c.len)
+    if st.holds(grow, eng):
+        segs = None if c.segs is None else c.segs + (("fill", v, grow),)
+        eng.M.write_path(st, r.loc, r.path, new_cont(eng, c.kind, n.lin, c.elem, segs, c.ty, hint="buf"))
+        return [(st, UNIT)]
+    eng.M.write_path(st, r.loc, r.path, new_cont(eng, c.kind, n.lin, c.elem, None, c.ty, hint="buf"))
     return [(st, UNIT)]
 
 
